@@ -18,6 +18,7 @@ import (
 	"lunar/engine/utils"
 	"lunar/engine/utils/environment"
 	"lunar/toolkit-core/network"
+	"sync"
 
 	"github.com/rs/zerolog/log"
 )
@@ -41,6 +42,9 @@ type Stream struct {
 	loadedConfig      network.ConfigurationData
 	lunarHub          *communication.HubCommunication
 	metricsData       *flowMetricsData
+	// loadedConfig is completed by notifyHub after the engine is already serving
+	// (the resources' and processors' part) and read by GetLoadedConfig
+	loadedConfigMu sync.RWMutex
 
 	validationMode bool // if true - any error will stop initialization
 	validationPath string
@@ -75,6 +79,8 @@ func (s *Stream) OnError(transactionID string) {
 }
 
 func (s *Stream) GetLoadedConfig() network.ConfigurationData {
+	s.loadedConfigMu.RLock()
+	defer s.loadedConfigMu.RUnlock()
 	return s.loadedConfig
 }
 
@@ -476,17 +482,20 @@ func (s *Stream) notifyHub() {
 		return
 	}
 	log.Debug().Msg("Notifying Hub about loaded config")
+	s.loadedConfigMu.Lock()
 	s.loadedConfig.Data = append(s.loadedConfig.Data, s.resources.GetLoadedConfig()...)
 	s.loadedConfig.Data = append(s.loadedConfig.Data, s.processorsManager.GetLoadedConfig()...)
+	loadedConfig := s.loadedConfig
+	s.loadedConfigMu.Unlock()
 
-	if s.loadedConfig.Data == nil {
+	if loadedConfig.Data == nil {
 		log.Debug().Msg("No configuration loaded, skipping notification to Hub")
 		return
 	}
 
 	sent := s.lunarHub.SendDataToHub(&network.ConfigurationMessage{
 		Event: network.WebSocketEventConfigurationLoad,
-		Data:  s.loadedConfig,
+		Data:  loadedConfig,
 	})
 	if !sent && !s.lunarHub.IsConnected() {
 		log.Info().Msg(
@@ -500,7 +509,7 @@ func (s *Stream) notifyHubWhenAvailable() {
 	<-s.lunarHub.ConnectionEstablishedChannel()
 	sent := s.lunarHub.SendDataToHub(&network.ConfigurationMessage{
 		Event: network.WebSocketEventConfigurationLoad,
-		Data:  s.loadedConfig,
+		Data:  s.GetLoadedConfig(),
 	})
 	if !sent {
 		log.Warn().
